@@ -33,6 +33,9 @@ pub struct Case {
     pub entry_point: u8,
     pub reload_entry_point: u8,
     pub traffic: Vec<Traffic>,
+    /// number of entries admitted on the resource before the rule is loaded (they exit between the two traffic rounds)
+    #[serde(default)]
+    pub early_entries: u8,
 }
 
 pub fn decode(u: &mut Bytes) -> Case {
@@ -52,7 +55,8 @@ pub fn decode(u: &mut Bytes) -> Case {
             with_error: u.choice(4) == 3,
         })
         .collect();
-    Case { family, f, empty_resource, entry_point, reload_entry_point, traffic }
+    let early_entries = [0u8, 0, 1, 2][u.tail_choice(4)];
+    Case { family, f, empty_resource, entry_point, reload_entry_point, traffic, early_entries }
 }
 
 fn pick<T: Copy>(b: u8, xs: &[T]) -> T {
@@ -220,7 +224,7 @@ impl Property for C12 {
         log::set_max_level(log::LevelFilter::Trace);
     }
     fn rule(&self) -> String {
-        "bytes -> family, one value per rule field from a menu holding every enum variant (incl. Associated with a seen / never-seen ref_resource, MemoryAdaptive, Custom(n) without generator) and boundary numbers inside the documented sane range plus the invalid side (negative, NaN, infinity, zero interval/duration/timeout, empty resource name), loading entry point (load_rules / load_rules_of_resource / append_rule), 1-4 entries (batch in {0,1,2,7,10^6}, no / empty / short / long args, attachments with / without the key, inbound / outbound, exit with / without error, clock steps up to 1 h), reload of an equal rule through a second entry point, clear; a log sink that formats every record is installed; oracle: no call panics (catch_unwind) and afterwards a health probe of the same manager on an unrelated resource (get, load, build, exit, clear) still works; non-trivial = every case (each is a distinct point of the cross product); classes = (family, validity, entry point) and the enum tuple; distinct = distinct (rule configuration, entry point, reload entry point) triples".into()
+        "in half of the cases 1-2 entries are admitted before the rule is loaded and exit between the two traffic rounds; bytes -> family, one value per rule field from a menu holding every enum variant (incl. Associated with a seen / never-seen ref_resource, MemoryAdaptive, Custom(n) without generator) and boundary numbers inside the documented sane range plus the invalid side (negative, NaN, infinity, zero interval/duration/timeout, empty resource name), loading entry point (load_rules / load_rules_of_resource / append_rule), 1-4 entries (batch in {0,1,2,7,10^6}, no / empty / short / long args, attachments with / without the key, inbound / outbound, exit with / without error, clock steps up to 1 h), reload of an equal rule through a second entry point, clear; a log sink that formats every record is installed; oracle: no call panics (catch_unwind) and afterwards a health probe of the same manager on an unrelated resource (get, load, build, exit, clear) still works; non-trivial = every case (each is a distinct point of the cross product); classes = (family, validity, entry point) and the enum tuple; distinct = distinct (rule configuration, entry point, reload entry point) triples".into()
     }
     fn assumptions(&self) -> Vec<String> {
         vec![
@@ -415,6 +419,19 @@ pub fn run_case(case: &Case, cfg: &RunCfg) -> Verdict {
             enum_class = format!("system/{:?}/{:?}", r.metric_type, r.strategy);
         }
     }
+    // entries that were admitted BEFORE the rule is loaded (a third of the cases): they are still open while the rule is
+    // loaded and enforced, and they exit between the two traffic rounds
+    let mut early = OpenEntries::new();
+    if case.early_entries > 0 && !case.empty_resource {
+        for _ in 0..case.early_entries {
+            let mut req = Req::new(&res, 1);
+            req.args = Some(vec!["a".to_string(), "b".to_string(), "c".to_string(), "a".to_string()]);
+            req.attachments = Some([("k".to_string(), "a".to_string())].into_iter().collect());
+            if let Ok(e) = build(req) {
+                early.push(e);
+            }
+        }
+    }
     load(case.entry_point);
     let mut open = OpenEntries::new();
     let run_traffic = |open: &mut OpenEntries| {
@@ -446,6 +463,7 @@ pub fn run_case(case: &Case, cfg: &RunCfg) -> Verdict {
         }
     };
     run_traffic(&mut open);
+    drop(early);
     // reload an equal rule (fresh id) through another entry point, then traffic again
     load(case.reload_entry_point);
     run_traffic(&mut open);
